@@ -180,3 +180,20 @@ def register(w):
         local_types={"keep": Seq(Ref(VALUE)), "removed": Seq(Str), "original_inputs": Seq(Ref(VALUE))},
         modifies=[(GRAPH, "inputs")], props=["C05", "C12", "C02"], opaque_externals=True, witnesses=["D7"],
     ))
+
+    # ---- bounded stand-in (labelled bounded, never counted as proved): custom input/output names
+    def bounded_names(world, c, out):
+        import time
+        from pyvc.run import run_witness
+        t0 = time.time()
+        holds, detail = run_witness("C05_custom_names_family", timeout=900)
+        d = {"oid": f"{MU}:_resolve_positional_inputs+_apply_custom_io_names_on_ir#bounded:custom_names_land_on_the_positional_argument_of_the_same_index", "kind": "bounded",
+             "status": "discharged" if holds else ("refuted" if holds is False else "unknown"), "backend": "enumerated", "time": time.time() - t0, "instances": 1, "trivial": 0,
+             "bounded": "n = 1..13 positional inputs named in_<i> / in_<i>_nchw, listed in order / reversed / shuffled, with and without two non-positional inputs; <= 3 outputs; duplicate and colliding names",
+             "note": f"the regex / dict / sort code of the renaming is outside the VC generator's string subset (re.fullmatch groups, int()); the real functions are run on an enumerated family; {detail}"[:600]}
+        if holds is False:
+            d.update(args={"witness": "C05_custom_names_family"}, replay={"reproduced": True, "detail": detail}, formula="", model=detail)
+        out["obls"].append(d)
+        out["paths"], out["time"] = 1, time.time() - t0
+        return out
+    w.add_contract(Contract(f"{MU}:<bounded-custom-names>", kind="custom", custom=bounded_names, props=["C05"], witnesses=["C05_custom_names_family"]))
